@@ -3,6 +3,7 @@
   dumps, operations and results. Not part of the model; trusted as part of the correspondence check.
 -/
 import RedkaModel.Model.Run
+import RedkaModel.Model.Views
 
 namespace Redka.Proto
 
@@ -355,5 +356,46 @@ def canon (db : DB) : DB :=
     sets := sortBy (fun a b => decide (a.kid < b.kid) || (a.kid == b.kid && bytesLt a.elem b.elem)) db.sets
     hashes := sortBy (fun a b => decide (a.kid < b.kid) || (a.kid == b.kid && bytesLt a.field b.field)) db.hashes
     zsets := sortBy (fun a b => decide (a.kid < b.kid) || (a.kid == b.kid && bytesLt a.elem b.elem)) db.zsets }
+
+/-! ### the six SQL views as the harness prints them (`select * from v…`; the rendered time columns
+are replaced by a flag: 1 = they are the rendering of the raw `rkey` row of the same `kid`) -/
+
+structure ViewDump where
+  keys : List (Int × Bytes × Int × Option Int)
+  strs : List (Int × Bytes × Bytes)
+  lists : List (Int × Bytes × Nat × Bytes)
+  sets : List (Int × Bytes × Bytes)
+  hashes : List (Int × Bytes × Bytes × Bytes)
+  zsets : List (Int × Bytes × Bytes × Score)
+  fmtOk : Bool
+
+def pViews : P ViewDump := do
+  expect "VK"; let ks ← pMany (do
+    let kid ← pInt; let key ← pBytes; let ty ← pInt; let len ← pOptInt; let f ← pBool; pure ((kid, key, ty, len), f))
+  expect "VS"; let ss ← pMany (do
+    let kid ← pInt; let key ← pBytes; let v ← pBytes; let f ← pBool; pure ((kid, key, v), f))
+  expect "VL"; let ls ← pMany (do
+    let kid ← pInt; let key ← pBytes; let i ← pNat; let v ← pBytes; let f ← pBool; pure ((kid, key, i, v), f))
+  expect "VE"; let es ← pMany (do
+    let kid ← pInt; let key ← pBytes; let v ← pBytes; let f ← pBool; pure ((kid, key, v), f))
+  expect "VH"; let hs ← pMany (do
+    let kid ← pInt; let key ← pBytes; let fl ← pBytes; let v ← pBytes; let f ← pBool; pure ((kid, key, fl, v), f))
+  expect "VZ"; let zs ← pMany (do
+    let kid ← pInt; let key ← pBytes; let v ← pBytes; let sc ← pScore; let f ← pBool; pure ((kid, key, v, sc), f))
+  pure { keys := ks.map (·.1), strs := ss.map (·.1), lists := ls.map (·.1), sets := es.map (·.1),
+         hashes := hs.map (·.1), zsets := zs.map (·.1),
+         fmtOk := ks.all (·.2) && ss.all (·.2) && ls.all (·.2) && es.all (·.2) && hs.all (·.2) && zs.all (·.2) }
+
+/-- verdict `W`: the views read from the real database are, as bags of rows, the views the model
+computes from the dumped tables at the same clock value -/
+def viewsAgree (now : Int) (post : DB) (v : ViewDump) : Bool :=
+  let m := Model.View.views now post
+  v.fmtOk &&
+  Model.View.bagEq v.keys (m.keys.map (fun r => (r.kid, r.key, r.ty, r.len))) &&
+  Model.View.bagEq v.strs (m.strs.map (fun r => (r.kid, r.key, r.value))) &&
+  Model.View.bagEq v.lists (m.lists.map (fun r => (r.kid, r.key, r.idx, r.elem))) &&
+  Model.View.bagEq v.sets (m.sets.map (fun r => (r.kid, r.key, r.elem))) &&
+  Model.View.bagEq v.hashes (m.hashes.map (fun r => (r.kid, r.key, r.field, r.value))) &&
+  Model.View.bagEq v.zsets (m.zsets.map (fun r => (r.kid, r.key, r.elem, r.score)))
 
 end Redka.Proto
